@@ -102,13 +102,17 @@ struct C09 : Prop {
 			} else {
 				size_t k = relogin_next >= 0 ? (size_t) relogin_next : r.below(ns.size());
 				relogin_next = -1;
-				if (ns[k].addr.empty() || ns[k].iface) continue;
+				if (ns[k].addr.empty()) continue;
+				// an interface beneath the root only ever leaves (taking everything beneath it with it); boards beneath an absent interface cannot log in
+				if (ns[k].iface && !(ns[k].present && r.chance(500))) continue;
+				{ bool parent_gone = false; for (auto &y : ns) if (y.iface && !y.present && !y.addr.empty() && y.addr.size() < ns[k].addr.size() && std::equal(y.addr.begin(), y.addr.end(), ns[k].addr.begin())) parent_gone = true; if (parent_gone) continue; }
 				J ev = J::arr(); J e = J::obj(); e.set("at_us", 0); e.set("node", pc::jaddr(ns[k].addr));
 				if (ns[k].present) {
 					e.set("topo", "lost"); ns[k].present = false;
+					if (ns[k].iface) { for (auto &y : ns) if (y.addr.size() > ns[k].addr.size() && std::equal(ns[k].addr.begin(), ns[k].addr.end(), y.addr.begin())) y.present = false; ph.set("hub_lost", true); }
 					// the notice itself is lost on the bus: the host still believes the board connected when it logs in again (possibly elsewhere)
 					// (it logs in again in the very next step: an absent board that the host keeps commanding answers nothing and its requests pile up)
-					if (r.chance(200)) { J fs = J::arr(); J f = J::obj(); f.set("kind", "lose"); fs.push(f); e.set("faults", fs); relogin_next = (int) k; }
+					if (!ns[k].iface && r.chance(200)) { J fs = J::arr(); J f = J::obj(); f.set("kind", "lose"); fs.push(f); e.set("faults", fs); relogin_next = (int) k; }
 				}
 				else {
 					e.set("topo", "new");
